@@ -198,6 +198,18 @@ pub fn encode_vec(v: &RV, s: &RS, defs: &Defs) -> Vec<u8> {
     out
 }
 
+thread_local! { static STRUCTURAL: std::cell::Cell<bool> = const { std::cell::Cell::new(false) }; }
+
+/// The reference decoder without the content rules of logical types: does `b` start with the
+/// encoding of a datum of the schema's underlying types, and how long is it.
+pub fn decode_structural(s: &RS, defs: &Defs, b: &[u8], budget: &mut i64) -> Option<usize> {
+    STRUCTURAL.with(|c| c.set(true));
+    let mut p = 0;
+    let r = decode(s, defs, b, &mut p, budget);
+    STRUCTURAL.with(|c| c.set(false));
+    r.map(|_| p)
+}
+
 /// Strict reference decoder: Some(value) iff `b[*p..]` starts with a complete, well-formed datum.
 /// `budget` bounds the number of nodes so hostile counts cannot blow up the harness.
 pub fn decode(s: &RS, defs: &Defs, b: &[u8], p: &mut usize, budget: &mut i64) -> Option<RV> {
@@ -209,6 +221,9 @@ pub fn decode(s: &RS, defs: &Defs, b: &[u8], p: &mut usize, budget: &mut i64) ->
         RS::Ref { full, .. } => return decode(&defs[full.trim_start_matches('.')], defs, b, p, budget),
         RS::Logical(l, base) => {
             let v = decode(base, defs, b, p, budget)?;
+            if STRUCTURAL.with(|c| c.get()) {
+                return Some(v);
+            }
             // content rules of logical types
             match (l, &v) {
                 (Logical::UuidString, RV::Str(s)) => {
